@@ -193,21 +193,40 @@ func (r *Run) do(op Op) {
 		} else {
 			rec.Returned, rec.Err = true, "skipped: no such block in the harness chain"
 		}
+	case "syncbig": // a sync over a huge gap: the tip the node is told about is 2^31 .. 2^63+ heights ahead
+		gaps := []uint64{1 << 31, 1 << 32, 1<<63 - 1, 1 << 63, 1<<63 + 1<<62}
+		rec.AbsH = h0 + gaps[op.N%len(gaps)]
+		if rec.AbsH < h0 || rec.AbsH > 1<<63+1<<62+100 {
+			rec.AbsH = 1<<63 + 5
+		}
+		b := NewBlock(rec.AbsH, "far-away", "tip")
+		proof := h.MakeProof(b, 0, nil)
+		h.Chain[rec.AbsH] = &ChainEntry{Block: b, Proof: proof}
+		err, ret := h.UpdateState(b, proof, nil)
+		rec.Returned = ret
+		if err != nil {
+			rec.Err = err.Error()
+		}
 	case "burst": // several syncs back to back, without yielding in between
 		rec.AbsH = uint64(int(h0) - 1 + op.DH)
 		if int(h0)-1+op.DH < 1 {
 			rec.AbsH = 1
 		}
 		rec.Returned = true
+		issued := 0
 		for k := 0; k < op.N; k++ {
 			x := rec.AbsH + uint64(k%3)
 			if ce, ok := h.Chain[x]; ok {
+				issued++
 				_, ret := h.UpdateState(ce.Block, ce.Proof, nil)
 				rec.Returned = rec.Returned && ret
 				if x > rec.AbsV {
 					rec.AbsV = x // highest height synced in this burst
 				}
 			}
+		}
+		if issued == 0 {
+			rec.Err = "skipped: no such blocks in the harness chain"
 		}
 	case "elect": // the others vote the node into the next view it leads
 		rec.AbsV, rec.Forwarded = h.SendVotes()
